@@ -19,6 +19,7 @@ pub fn scenarios(tier: &str, seed: u64) -> Vec<Scn> {
         ("GCV||SNAP", vec![vec![Gcv(P(0))], vec![Snap(Latest)]]),
         ("GCV||GETSNAP", vec![vec![Gcv(Nil)], vec![GetSnap]]),
         ("SNAP(latest)||SNAP(older)", vec![vec![Snap(Latest)], vec![Snap(P(0))]]),
+        ("SNAP(latest)||SNAP(older-mid)", vec![vec![Snap(Latest)], vec![Snap(P(3))]]),
         ("SNAP||GETSNAP", vec![vec![Snap(Latest)], vec![GetSnap]]),
         ("GETSNAP||GETSNAP", vec![vec![GetSnap], vec![GetSnap]]),
     ];
@@ -41,7 +42,13 @@ pub fn scenarios(tier: &str, seed: u64) -> Vec<Scn> {
                     let is_extra = extra.iter().any(|(n, _)| n == name);
                     // quick: all pairs on never-seen (HTTP) and chain-with-snapshot; the rest sampled
                     let core = matches!(prefix, Prefix::Chain3Snap) || (prefix == Prefix::NeverSeen && entry == Entry::Http);
-                    let keep = if thorough {
+                    // two uploads that are both acceptable on their own: chains without a snapshot in
+                    // the way (always kept)
+                    let both_acceptable = (name.starts_with("SNAP(latest)||SNAP(older)") && prefix == Prefix::Chain3) || (name.starts_with("SNAP(latest)||SNAP(older-mid)") && prefix == Prefix::Chain6Snap);
+                    if name.starts_with("SNAP(latest)||SNAP(older-mid)") && prefix != Prefix::Chain6Snap {
+                        continue;
+                    }
+                    let keep = if thorough || both_acceptable {
                         true
                     } else if is_extra {
                         (core && sel.pct(45)) || (name.starts_with("AV||SNAP;") && prefix == Prefix::NeverSeen && entry == Entry::Http && bk != Bk::Sql2)
